@@ -65,6 +65,7 @@ def build(item):
         def snap():
             out = []
             for tag, m in models:
+                out.append(([m.name, m.instname] + [c.name for c in m.coverpoint_l] + [c.name for c in m.cross_l],))
                 for cpm in m.coverpoint_l:
                     out.append((list(cpm.hit_l), list(cpm.hit_ignore_l), list(cpm.hit_illegal_l), set(cpm.unhit_s)))
                 for xm in m.cross_l:
@@ -95,6 +96,22 @@ def build(item):
                 for bi in range(min(len(rc.illegal_bins), cpm.get_n_illegal_bins())):
                     sym.check(tag + "illegal_name[%d]" % bi, rc.illegal_bins[bi].name == cpm.get_illegal_bin_name(bi))
                     sym.check(tag + "illegal_count[%d]" % bi, rc.illegal_bins[bi].count == cpm.get_illegal_bin_hits(bi))
+                # names and counts against the specification / the injected lists (independent of the model's own accessors)
+                ref = covref.ref_bins(spec["cps"][ci], ENUMS)
+                if spec["cps"][ci].get("bins"):
+                    # user-given names of single bins must appear verbatim at their position (array bins: generated names,
+                    # compared with the model's accessor only)
+                    exp = [n if "[" not in n else None for n, r in ref["bins"]]
+                    got = [b.name for b in rc.bins]
+                    sym.check(tag + "bin_names_spec", len(got) == len(exp) and all(e is None or e == g for e, g in zip(exp, got)))
+                sym.check(tag + "ignore_names_spec", [b.name for b in rc.ignore_bins] == [n for n, it in spec["cps"][ci].get("ignore") or []])
+                sym.check(tag + "illegal_names_spec", [b.name for b in rc.illegal_bins] == [n for n, it in spec["cps"][ci].get("illegal") or []])
+                for bi in range(min(len(rc.bins), len(cpm.hit_l))):
+                    sym.check(tag + "bin_count_injected[%d]" % bi, rc.bins[bi].count == cpm.hit_l[bi])
+                for bi in range(min(len(rc.ignore_bins), len(cpm.hit_ignore_l))):
+                    sym.check(tag + "ignore_count_injected[%d]" % bi, rc.ignore_bins[bi].count == cpm.hit_ignore_l[bi])
+                for bi in range(min(len(rc.illegal_bins), len(cpm.hit_illegal_l))):
+                    sym.check(tag + "illegal_count_injected[%d]" % bi, rc.illegal_bins[bi].count == cpm.hit_illegal_l[bi])
                 sym.check(tag + "cp_coverage", abs(rc.coverage - cpm.get_inst_coverage()) < EPS)
             for xi, xm in enumerate(m.cross_l):
                 rx = rep.crosses[xi]
@@ -110,6 +127,20 @@ def build(item):
         cmp_cg(trep, tm, "type:")
         for k in range(min(ninst, len(trep.covergroups))):
             cmp_cg(trep.covergroups[k], insts[k].get_model(), "inst%d:" % k)
+        def ref_names():
+            seen, out = set(), []
+            for cg in insts:
+                m = cg.get_model()
+                base = m.instname if m.instname is not None else m.name
+                nm, i = base, 0
+                while nm in seen:
+                    i += 1
+                    nm = "%s_%d" % (base, i)
+                seen.add(nm)
+                out.append(nm)
+            return out
+        sym.check("type_name", trep.name == tm.name)
+        sym.check("instance_names", [i.name for i in trep.covergroups] == ref_names())
         with contextlib.redirect_stdout(io.StringIO()):
             sym.check("get_coverage_is_type_coverage", abs(insts[0].get_coverage() - trep.coverage) < 1e-3)
         # reporting does not alter coverage state
@@ -121,8 +152,17 @@ def build(item):
                     if isinstance(x, set):
                         same = same and (x == y)
                     else:
-                        same = same and len(x) == len(y) and all(p is q for p, q in zip(x, y))
+                        same = same and len(x) == len(y) and all((p is q) or (isinstance(p, (str, type(None))) and p == q) for p, q in zip(x, y))
         sym.check("state_unchanged_by_report", same)
+        if item.get("rename"):
+            # a report taken later in the history shows the names held in memory then
+            insts[-1].set_name("renamed_late")
+            with contextlib.redirect_stdout(io.StringIO()):
+                rpt2 = vsc.get_coverage_report_model()
+            t2 = rpt2.covergroups[0]
+            sym.check("instance_names_after_rename", [i.name for i in t2.covergroups] == ref_names() and ref_names()[-1] == "renamed_late")
+            for k in range(min(ninst, len(t2.covergroups))):
+                cmp_cg(t2.covergroups[k], insts[k].get_model(), "second_report:inst%d:" % k)
         # text rendering: every bin name appears (structure only; counts are symbolic)
         if item.get("text") and not sym.symbolic:
             with contextlib.redirect_stdout(io.StringIO()):
@@ -158,6 +198,66 @@ def text_check(chk):
     chk.count("text_report", n)
 
 
+def xml_check(chk):
+    """supplementary, concrete: names and hit counts of the report built from the XML written by write_coverage_db equal
+    those of the in-memory report model (lxml and text formatting make the counts concrete, so this part is not symbolic).
+    Percentages after read-back are PyUCIS' (at_least is not carried by its XML) and are not compared."""
+    import vsc
+    from ucis.xml.xml_factory import XmlFactory
+    from ucis.report.coverage_report_builder import CoverageReportBuilder
+    enum_classes = covref.mk_enum_classes(ENUMS)
+    rnd = random.Random(seed())
+    specs = [
+        {"cps": [{"name": "p1", "type": ["u", 4], "bins": [["a", "array", None, [[0, 1]]], ["b", "bin", [[4, 7]]]],
+                  "ignore": [["ig", [9]], ["ig2", [10]]], "illegal": [["il", [[12, 13]]], ["il2", [14]]], "at_least": 2},
+                 {"name": "p2", "type": ["u", 2], "bins": [["z", "bin", [0]], ["nz", "array", None, [[1, 2]]]]}],
+         "crosses": [{"name": "x", "cps": ["p1", "p2"], "at_least": 2}]},
+        {"cps": [{"name": "p1", "type": ["u", 3]}, {"name": "p2", "type": ["enum", "E5"]}]},
+        {"cps": [{"name": "p1", "type": ["u", 4], "bins": [["p", "array", 3, [[0, 10]]]], "weight": 2}]},
+    ]
+
+    def dump(r):
+        def cg(g):
+            o = [g.name]
+            for c in g.coverpoints:
+                o.append((c.name, [(b.name, b.count) for b in c.bins], [(b.name, b.count) for b in c.ignore_bins], [(b.name, b.count) for b in c.illegal_bins]))
+            for c in g.crosses:
+                o.append((c.name, [(b.name, b.count) for b in c.bins]))
+            o.append([cg(i) for i in g.covergroups])
+            return o
+        return [cg(g) for g in r.covergroups]
+    n = 0
+    for si, spec in enumerate(specs):
+        for ninst in (1, 2, 3):
+            e3.reset_coverage_registry()
+            with contextlib.redirect_stdout(io.StringIO()):
+                insts = [covref.build_cg(vsc, spec, enum_classes) for _ in range(ninst)]
+                hist = []
+                for k in range(rnd.randrange(0, 40)):
+                    cg, order = insts[rnd.randrange(ninst)]
+                    vals = []
+                    for fn in order:
+                        cp = [c for c in spec["cps"] if c["name"] + "_v" == fn][0]
+                        if cp["type"][0] == "enum":
+                            vals.append(list(enum_classes[cp["type"][1]])[rnd.randrange(len(enum_classes[cp["type"][1]]))])
+                        else:
+                            vals.append(rnd.randrange(1 << cp["type"][1]))
+                    hist.append([int(v) for v in vals])
+                    try:
+                        cg.sample(*vals)
+                    except Exception:
+                        pass            # illegal-bin hits raise by design
+                r1 = vsc.get_coverage_report_model()
+                out = io.StringIO()
+                vsc.write_coverage_db(out)
+                r2 = CoverageReportBuilder.build(XmlFactory.read(io.StringIO(out.getvalue())))
+            n += 1
+            if dump(r1) != dump(r2):
+                chk.violation({"harness": "xml_roundtrip"}, "XML written by write_coverage_db reads back with different names/counts "
+                              "(spec %d, %d instances, history %s)" % (si, ninst, hist[:20]), {"engine": "concrete", "spec": spec, "history": hist})
+    chk.count("xml_roundtrip", n)
+
+
 def shapes(t, sd):
     items = []
     U = ["u", 4]
@@ -165,6 +265,8 @@ def shapes(t, sd):
         "bins+ignore+illegal": {"name": "p1", "type": U, "bins": [["a", "array", None, [[0, 1]]], ["b", "bin", [[4, 7]]]],
                                 "ignore": [["ig", [9]]], "illegal": [["il", [[12, 13]]]]},
         "partition": {"name": "p1", "type": U, "bins": [["p", "array", 2, [[0, 6]]]]},
+        "multi_ignore_illegal": {"name": "p1", "type": U, "bins": [["a", "bin", [[0, 3]]], ["b", "array", None, [4, 5]]],
+                                 "ignore": [["ig", [9]], ["ig2", [10]]], "illegal": [["il", [[12, 13]]], ["il2", [14]], ["il3", [15]]]},
         "auto": {"name": "p1", "type": ["u", 2]},
         "enum": {"name": "p1", "type": ["enum", "E5"]},
         "array_collection": {"name": "p1", "type": U, "bins": [["c", "array", None, [[0, 1], 5, [8, 9]]]]},
@@ -176,7 +278,7 @@ def shapes(t, sd):
                 pl = [["fork"] + ["alt"] * ninst, ["all"] + ["none"] * ninst, ["none", "fork", "all"][:ninst + 1]]
                 for pats in pl:
                     items.append(dict(spec={"cps": [c]}, ninst=ninst, shape="%s at_least=%d" % (sn, al), text=(ninst == 1 and pats[0] == "all"),
-                                      patterns=pats))
+                                      patterns=pats, rename=(pats[0] == "all")))
     for w1, w2 in ((1, 1), (2, 1), (1, 0), (0, 0)):
         spec = {"cps": [{"name": "p1", "type": ["u", 2], "bins": [["lo", "bin", [[0, 1]]], ["hi", "bin", [[2, 3]]]], "weight": w1},
                         {"name": "p2", "type": ["u", 2], "bins": [["z", "bin", [0]], ["nz", "bin", [[1, 3]]]], "weight": w2}]}
@@ -198,8 +300,10 @@ def main():
                             "database -> CoverageReportBuilder) through vsc.get_coverage_report_model(): the hit count of EVERY regular/ignore/"
                             "illegal/cross bin of the type model and of every instance is a symbolic integer injected into a valid state; z3 "
                             "shows each reported count is identical to the in-memory count, names/structure agree, the percentages agree with "
-                            "get_coverage()/get_inst_coverage() on every path, and reporting leaves the state unchanged. The XML write/read "
-                            "round trip (lxml, text formatting) is NOT claimed.",
+                            "get_coverage()/get_inst_coverage() on every path, and reporting leaves the state (counts, names) unchanged, also for a second "
+                            "report after set_name(). Names given by the user and the injected counts are compared position by position with "
+                            "the specification, independently of the model's accessors. The XML write/read round trip cannot be made symbolic "
+                            "(lxml, text formatting): names/counts are compared on 9 concrete random histories only (supplementary, not decided).",
                 functions=["vsc.get_coverage_report_model / get_coverage_report", "vsc.visitors.coverage_save_visitor.CoverageSaveVisitor",
                            "vsc.model.coverpoint_model.CoverpointModel.get_bin_name/get_bin_hits/get_*_ignore/illegal", "vsc.model.coverpoint_cross_model.get_bin_name/get_bin_hits",
                            "vsc.model.covergroup_model.get_inst_coverage", "ucis.mem (PyUCIS in-memory DB)", "ucis.report.coverage_report_builder.CoverageReportBuilder"])
@@ -215,12 +319,13 @@ def main():
                "PyUCIS (in-memory DB, report builder) is executed as is on the symbolic counts")
     chk.bound("hit counts 0..1000 symbolic for every bin; 1..2 instances; bin kinds: per-value array, bag bin, partition, auto, enum, "
               "array collection, ignore, illegal, cross; at_least {1,2}; weights {0,1,2}",
-              "text report: bin names present (structure only); XML not covered")
+              "text report: bin names present (structure only); XML round trip: 9 concrete histories (names, counts)")
     chk.extra["rule"] = "one evaluation = one covergroup population explored over all paths; distinct = distinct populations"
     items = shapes(tier(), seed())
     items.sort(key=lambda it: -(it["ninst"] * (len(it["spec"]["cps"]) + 3 * len(it["spec"].get("crosses", [])))))
     e3.run_e3(chk, items, build, replay_module="checks.c13", chunk=1)
     text_check(chk)
+    xml_check(chk)
     chk.finish()
 
 
